@@ -948,6 +948,9 @@ func (r *rpf) stmtC(s ast.Stmt) *rpfReturn {
 		if x.Tok == token.CONTINUE && x.Label == nil {
 			panic(rpfContinue{})
 		}
+		if x.Tok == token.BREAK && x.Label == nil && r.inTableLoop > 0 {
+			panic(rpfLoopBreak{})
+		}
 	case *ast.IfStmt:
 		if x.Init != nil {
 			if ret := r.stmtC(x.Init); ret != nil {
